@@ -275,8 +275,12 @@ def native(P, ks, a):
         ctx = {'harness': 'native', 'family': fam, 'kind': kind, 'impl': impl, 'entry': e, 'argtype': type(x).__name__,
                'ch': ch, 'arg': repr(x)[:30], 'domain_ok': ok}
         gk, gv = good(kch), (None if is_set else good(vch))
-        base = [gk]
-        t = cl[kind](base) if is_set else cl[kind]([(gk, gv)])
+        n0 = P.get('n0', 1)             # entries before the write: 0 (empty), 1, 3
+        if n0 == 0 and e == 'overwrite':
+            return
+        base = [good(kch, i) for i in (0, 2, 3)[:n0]]
+        t = cl[kind](base) if is_set else cl[kind]([(k_, gv) for k_ in base])
+        ctx['n0'] = n0
         before = list(t.keys()) if is_set else list(t.items())
         k2 = good(kch, 1)
         exc = None
@@ -337,6 +341,20 @@ def native(P, ks, a):
         except Exception as ex:     # noqa
             fail('the container cannot be read after the write (%s)' % type(ex).__name__, ctx)
             return
+        # whatever happened, the container is sound and consistent with what it lists (C03)
+        try:
+            if len(t) != len(now) or bool(t) != bool(now):
+                fail('len()/bool() disagree with the listed contents after the write', ctx)
+            if kind in ('BTree', 'TreeSet') and type(t) is cl[kind]:
+                t._check()
+                from BTrees.check import check as _chk
+                _chk(t)
+                if (t.__getstate__() is None) != (not now):
+                    fail('the serialized state of the tree is None iff it is empty: violated after the write', ctx)
+        except common.Fail:
+            raise
+        except Exception as ex:     # noqa
+            fail('the container is unsound after the write (%s: %s)' % (type(ex).__name__, str(ex)[:60]), ctx)
         if ok is None:
             return                  # no oracle for this value (non-finite floats, large ints as floats)
         if ok:
